@@ -424,6 +424,9 @@ macro_rules! float_cases {
                     let pref = Arc::new(std::sync::OnceLock::<DiscRef>::new());
                     r.add("Poisson", N, &[("lambda", lam)], move || Poisson::<F>::new(lam as F).ok(), chkp, disc(move |k| pref.get_or_init(|| poisson_ref(lr2)).cdf(k), 0.0, INF), true);
                     let (zn, zs) = (lu(2.0, 1e5).round(), lu(0.2, 4.0));
+                    // f32 within 0.02 of the s = 1 switch is a recorded finding (power 1/(1-s) amplifies the rounding):
+                    // random points stay clear of it, the fixed grid holds 0.998 and 1.002
+                    let zs = if IS32 && (zs - 1.0).abs() < 0.02 { 1.05 } else { zs };
                     let (znr, zsr) = (R(zn), R(zs));
                     let chkz = move |x: F| { let x = x as f64; if x.is_nan() { Some("NaN") } else if x < 1.0 { Some("below 1") } else if x > znr { Some("above n") } else if x.fract() != 0.0 { Some("not an integer") } else { None } };
                     r.add("Zipf", N, &[("n", zn), ("s", zs)], move || Zipf::<F>::new(zn as F, zs as F).ok(), chkz, disc(move |k| zipf_cdf(k, znr, zsr), 1.0, znr), true);
